@@ -264,7 +264,16 @@ def _analyse(project: Project, fi: FunctionInfo, f, only=None, probe=None) -> Li
         if isinstance(e, ast.Constant):
             return isinstance(e.value, float) and not float(e.value).is_integer()
         if isinstance(e, ast.Name):
-            return e.id in floaty
+            if e.id in floaty:
+                return True
+            if e.id not in locs and e.id not in params and e.id in fi.module.globals:
+                # a module-level table: floating-point when its defining expression is (`_R = np.array([[np.cos(..), ..]])`)
+                return is_float(fi.module.globals[e.id], depth + 1)
+            return False
+        if isinstance(e, (ast.List, ast.Tuple)) and e.elts:
+            return any(is_float(x, depth + 1) for x in e.elts)
+        if isinstance(e, ast.Attribute) and e.attr == "T":
+            return is_float(e.value, depth + 1)
         if isinstance(e, ast.Attribute):
             return res(e) in FLOAT_ATTRS
         if isinstance(e, ast.UnaryOp):
@@ -272,7 +281,7 @@ def _analyse(project: Project, fi: FunctionInfo, f, only=None, probe=None) -> Li
         if isinstance(e, ast.BinOp):
             if isinstance(e.op, ast.Div):
                 return True
-            if isinstance(e.op, (ast.Add, ast.Sub, ast.Mult, ast.Pow, ast.Mod)):
+            if isinstance(e.op, (ast.Add, ast.Sub, ast.Mult, ast.Pow, ast.Mod, ast.MatMult)):
                 return is_float(e.left, depth + 1) or is_float(e.right, depth + 1)
             return False
         if isinstance(e, ast.Call):
@@ -282,6 +291,13 @@ def _analyse(project: Project, fi: FunctionInfo, f, only=None, probe=None) -> Li
             if t in FLOAT_PRESERVING and e.args:
                 # a reduction / element-wise combination of floating-point values is floating-point
                 return any(is_float(a_, depth + 1) for a_ in e.args[:2])
+            if t in ("numpy.array", "numpy.asarray") and e.args and not _has_dtype(e):
+                return is_float(e.args[0], depth + 1)
+            if t in ("numpy.matmul",) and len(e.args) >= 2:
+                return any(is_float(a_, depth + 1) for a_ in e.args[:2])
+            if t is None and isinstance(e.func, ast.Attribute) and e.func.attr == "dot" and e.args:
+                # x.dot(y): floating-point as soon as one factor is
+                return is_float(e.func.value, depth + 1) or is_float(e.args[0], depth + 1)
             return False
         if isinstance(e, ast.IfExp):
             return is_float(e.body, depth + 1) and is_float(e.orelse, depth + 1)
